@@ -56,9 +56,10 @@ Proof.
                    | apply sactor_set in G; destruct G as [[E D]|G]; [try discriminate D|]
                    | match type of G with context [match ?x with _ => _ end] => destruct x end ];
       try (destruct (I _ _ G) as [_ X]; congruence).
-    injection D as <-. split; [|reflexivity].
-    unfold seq_ok in SQ.
-    match goal with Q : actor s = Some _ |- _ => rewrite Q in SQ end. exact SQ.
+    (* the stop-first branch, once per value of [r_drain m] *)
+    all: injection D as <-; split; [|reflexivity];
+      unfold seq_ok in SQ;
+      match goal with Q : actor _ = Some _ |- _ => rewrite Q in SQ end; exact SQ.
 Qed.
 
 (* ---- sender count ---- *)
@@ -117,7 +118,7 @@ Qed.
 Lemma senders_ok_not_inductive (a : A) :
   exists m (s : st) ch s', senders_ok s /\ step m s ch = Some s' /\ ~ senders_ok s'.
 Proof.
-  exists {| r_cap := None; r_meths := []; r_clonable := false; r_guard := false; r_stop_first := true |}.
+  exists {| r_cap := None; r_meths := []; r_clonable := false; r_guard := false; r_stop_first := true; r_drain := true |}.
   exists {| actor := None; busy := None; exited := Some Stopped; queue := []; senders := 1;
             slots := [((0, 0), SActor a)];
             clients := [mk_client (StopWait (0, 0) 0 []) [] 0 1 []; mk_client Ready [] 1 0 []];
